@@ -213,6 +213,20 @@ impl ConstantFolding {
                     }
                 }
             };
+            // The selected operand takes the place of an expression that produces a value, so it must
+            // not become a reference: `(true && o.f)()` calls `f` with an undefined `this`,
+            // `delete (1 && o.k)` deletes nothing and `typeof (1 && unresolvable)` throws.
+            // Anything but a literal therefore stays behind a comma, like `(undefined, eval)` above.
+            if !matches!(expr, Expression::Literal(_)) {
+                return PassAction::Replace(
+                    Binary::new(
+                        BinaryOp::Comma,
+                        Literal::new(LiteralKind::Undefined, span).into(),
+                        expr,
+                    )
+                    .into(),
+                );
+            }
             return PassAction::Replace(expr);
         }
 
